@@ -2,20 +2,19 @@
 //!   clause family x target binding x assignment block x field name x spelling,
 //! multi-clause plans with handle graphs, BELIEF in every selection position,
 //! identity selectors of UPSERT, bare-id creation, and the ASSERT shorthand
-//! with every member subset. Whatever `parse_kip` / `parse_kml` ACCEPT is
+//! with every member subset. Whatever `parse_kip` / `parse_kql` / `parse_kml` / `parse_meta` ACCEPT is
 //! handed to the independent walker (`vkip::walker`), which must find none of
 //! the forbidden shapes; the ASSERT expansion is compared with a model written
 //! from SPECIFICATION.md §55.1.
 
 use anda_kip::{
     BoundValue, Command, ElementRef, KipValue, KmlStatement, MutationClause, MutationValue, Number, PredAtom, Scalar,
-    SymbolRef, Term, parse_kip, parse_kml,
+    SymbolRef, Term,
 };
 use serde_json::{Value, json};
 use std::collections::BTreeMap;
-use std::panic::{AssertUnwindSafe, catch_unwind};
 use vcore::{Run, Tier, Violation, util};
-use vkip::walker::{self, ASSERTION_PAYLOAD, ENGINE_OWNED, EVIDENCE_PAYLOAD, PROPOSITION_TUPLE};
+use vkip::walker::{ASSERTION_PAYLOAD, ENGINE_OWNED, EVIDENCE_PAYLOAD, PROPOSITION_TUPLE};
 
 // ---------------------------------------------------------------------------
 // Cases
@@ -254,6 +253,11 @@ fn selection_cases() -> Vec<Case> {
         r#"?b BELIEF SLOT (?t, "timezone")"#,
         r#"?t BELIEF (:a, "p", :b)"#,
         r#"?t belief slot (:a, "p")"#,
+        r#"?s BELIEF SLOT (:alice, "tz")"#,
+        // the other KQL-only selection syntax: raw predicate paths
+        r#"(?t, "is_subclass_of"{0,5}, ?anc)"#,
+        r#"?pr (?t, "a" | "b", ?y)"#,
+        r#"?c {proposition: (?t, "p"{2}, ?y)}"#,
     ];
     let positions = [
         ("top", "<X>"),
@@ -909,22 +913,14 @@ struct CaseOut {
 
 fn evaluate(case: &Case) -> CaseOut {
     let mut out = CaseOut::default();
-    let kip = catch_unwind(AssertUnwindSafe(|| parse_kip(&case.text)));
-    let kml = catch_unwind(AssertUnwindSafe(|| parse_kml(&case.text)));
-    let (Ok(kip), Ok(kml)) = (kip, kml) else {
+    // all four command entry points: parse_kip, parse_kql, parse_kml, parse_meta
+    let Ok(trees) = vkip::entries::accepted_trees(&case.text) else {
         out.violations.push(("C16:panic-in-parser".into(), format!("the parser panicked on {:?}", case.text)));
         return out;
     };
-    let mut trees: Vec<(&str, Command)> = Vec::new();
-    if let Ok(c) = kip {
-        trees.push(("parse_kip", c));
-    }
-    if let Ok(s) = kml {
-        trees.push(("parse_kml", Command::Kml(s)));
-    }
     out.accepted = !trees.is_empty();
     for (entry, tree) in &trees {
-        for s in walker::forbidden_shapes(tree) {
+        for s in vkip::entries::tree_findings(entry, tree) {
             out.violations.push((
                 format!("C16:{}", s.class),
                 format!("{entry} accepted {:?} although: {} ({})", case.text, s.class, s.detail),
@@ -1089,7 +1085,7 @@ fn main() {
     run.rule(&format!(
         "complete product: {} clause contexts (8 families, UPDATE ?t under {} target bindings, also inside MUTATE) x {} blocks x \
          {} field names (engine-owned, Assertion/Evidence/Proposition payload, ordinary) x 7 spellings x 3 positions x {} values; \
-         BELIEF (6 forms) x 6 positions x 11 selecting statements; 20 MATCH shapes x 3 tails x 2; 15 bare-id creations; plans of \
+         BELIEF / BELIEF SLOT (7 forms) and raw predicate paths (3) x 6 positions x 11 selecting statements incl. EXPORT CAPSULE, through all four entry points; 20 MATCH shapes x 3 tails x 2; 15 bare-id creations; plans of \
          1..3 clauses from {} templates x {} handle-graph shapes; ASSERT with every member subset x value forms x handle x \
          SUPERSEDING; each of the 8 ASSERT members under 6 other spellings (Title, UPPER, mixed, quoted) alone and next to the \
          canonical member, before and after it, standalone and in MUTATE; every accepted tree walked; distinct = distinct accepted texts",
